@@ -1,28 +1,35 @@
 //! C47 — mixed-type comparisons are order-independent and exact for integers/decimals (B3 driver of NumLine.tla).
 //!
-//! Input (`--in`): {"values": [exact decimal string per index (1-based)], "types": [{"name", "idxs"}],
-//!                  "pairs": [{"ta","tb","exact"}], "filter_ops": [...]}.
-//! For every ordered type pair the comparison is evaluated through SQL over typed MemTables: in a projection
-//! (all six operators, both operand orders), in a filter, in an equi-join (both orders), against literals (both
-//! orders; the cast-unwrapping path), in an IN list and an IN subquery.
-//! Oracles: mirror law; filter / join / literal / IN agree with the pairwise projection; for exact pairs the
-//! projection equals the comparison of indices (NumLine!Cmp).
-use arrow::array::{Array, ArrayRef, BooleanArray, Decimal128Array, Float32Array, Float64Array, Int8Array, Int16Array, Int32Array, Int64Array,
-                   StringArray, UInt8Array, UInt16Array, UInt32Array, UInt64Array};
-use arrow::datatypes::{DataType, Field, Schema};
+//! Input (`--in`): {"types": [{"name", "rows": [[index, text]...]}], "pairs": [{"ta","tb","exact"}], "filter_ops": [...],
+//!                  "list_sizes": [...]}.  index > 0: position on the global number line; 0: NULL; < 0: a float special
+//! (NaN, +inf, -inf) that is not on the line.  `text` is the exact decimal numeral (integer count in the type's unit for
+//! temporal types).
+//! For every ordered type pair the comparison is evaluated through SQL over typed MemTables:
+//!   projection (six operators, both operand orders; BETWEEN, CASE, IS [NOT] DISTINCT FROM, IN (expr), NOT IN (expr)),
+//!   filter, equi-join (hash and sort-merge, both key orders, with a residual filter, null-equal keys), comparisons
+//!   against literals (both orders: the cast-unwrapping path), IN / NOT IN lists of literals of several sizes with and
+//!   without a NULL entry (bitmap / branch-free / hash-set / generic strategies), IN subquery.
+//! Oracles: mirror law; filter / join / literal / IN agree with the pairwise projection; for exact pairs (integers,
+//! decimals) every answer equals the comparison of indices (NumLine!Cmp3).
+use arrow::array::{Array, ArrayRef, BooleanArray, Decimal128Array, Decimal256Array, Float32Array, Float64Array, Int8Array, Int16Array, Int32Array,
+                   Int64Array, StringArray, UInt8Array, UInt16Array, UInt32Array, UInt64Array};
+use arrow::datatypes::{DataType, Field, Schema, TimeUnit, i256};
 use arrow::record_batch::RecordBatch;
 use datafusion::datasource::MemTable;
 use datafusion::prelude::{SessionConfig, SessionContext};
 use serde_json::{Value, json};
-use std::collections::{BTreeSet, HashMap};
+use std::collections::{BTreeMap, BTreeSet, HashMap, VecDeque};
 use std::sync::Arc;
 use vcommon::util;
 
 const OPS: [&str; 6] = ["=", "<>", "<", "<=", ">", ">="];
 fn mirror(op: &str) -> &'static str { match op { "<" => ">", "<=" => ">=", ">" => "<", ">=" => "<=", "=" => "=", _ => "<>" } }
-fn cmp_idx(op: &str, i: i64, j: i64) -> bool { match op { "=" => i == j, "<>" => i != j, "<" => i < j, "<=" => i <= j, ">" => i > j, _ => i >= j } }
+fn cmp_idx(op: &str, i: i64, j: i64) -> Option<bool> {
+    if i == 0 || j == 0 { return None; }
+    Some(match op { "=" => i == j, "<>" => i != j, "<" => i < j, "<=" => i <= j, ">" => i > j, _ => i >= j })
+}
 
-fn dec_scaled(s: &str, scale: u32) -> i128 {
+fn dec_digits(s: &str, scale: u32) -> String {
     let neg = s.starts_with('-');
     let t = s.trim_start_matches('-');
     let (ip, fp) = t.split_once('.').unwrap_or((t, ""));
@@ -30,59 +37,88 @@ fn dec_scaled(s: &str, scale: u32) -> i128 {
     let mut digits = String::from(ip);
     digits.push_str(fp);
     for _ in 0..(scale - fp.len() as u32) { digits.push('0'); }
-    let v: i128 = digits.parse().unwrap();
-    if neg { -v } else { v }
+    if neg { format!("-{digits}") } else { digits }
 }
 
 #[derive(Clone)]
-struct Ty { name: String, table: String, sql_type: String, rows: Vec<(i64, String)> }   // rows: (index, literal text)
+struct Ty { name: String, table: String, dt: DataType, rows: Vec<(i64, String)> }
 
-fn arrow_type(name: &str) -> (DataType, String) {
-    let d = |p, s| (DataType::Decimal128(p, s), format!("Decimal128({p}, {s})"));
+fn arrow_type(name: &str) -> DataType {
+    let ts = |u, tz: Option<&str>| DataType::Timestamp(u, tz.map(|z| z.into()));
     match name {
-        "i8" => (DataType::Int8, "Int8".into()), "i16" => (DataType::Int16, "Int16".into()), "i32" => (DataType::Int32, "Int32".into()),
-        "i64" => (DataType::Int64, "Int64".into()), "u8" => (DataType::UInt8, "UInt8".into()), "u16" => (DataType::UInt16, "UInt16".into()),
-        "u32" => (DataType::UInt32, "UInt32".into()), "u64" => (DataType::UInt64, "UInt64".into()),
-        "f32" => (DataType::Float32, "Float32".into()), "f64" => (DataType::Float64, "Float64".into()),
-        "d20_0" => d(20, 0), "d10_2" => d(10, 2), "d38_10" => d(38, 10),
-        "utf8" => (DataType::Utf8, "Utf8".into()),
-        "dict_i64" => (DataType::Dictionary(Box::new(DataType::Int32), Box::new(DataType::Int64)), "Int64".into()),
-        "dict_utf8" => (DataType::Dictionary(Box::new(DataType::Int32), Box::new(DataType::Utf8)), "Utf8".into()),
+        "i8" => DataType::Int8, "i16" => DataType::Int16, "i32" => DataType::Int32, "i64" => DataType::Int64,
+        "u8" => DataType::UInt8, "u16" => DataType::UInt16, "u32" => DataType::UInt32, "u64" => DataType::UInt64,
+        "f32" => DataType::Float32, "f64" => DataType::Float64,
+        "d20_0" => DataType::Decimal128(20, 0), "d10_2" => DataType::Decimal128(10, 2), "d38_10" => DataType::Decimal128(38, 10),
+        "d256_50_10" => DataType::Decimal256(50, 10),
+        "utf8" => DataType::Utf8, "utf8view" => DataType::Utf8View, "largeutf8" => DataType::LargeUtf8,
+        "dict_i64" => DataType::Dictionary(Box::new(DataType::Int32), Box::new(DataType::Int64)),
+        "dict_utf8" => DataType::Dictionary(Box::new(DataType::Int32), Box::new(DataType::Utf8)),
+        "date32" => DataType::Date32, "date64" => DataType::Date64,
+        "ts_s" => ts(TimeUnit::Second, None), "ts_ms" => ts(TimeUnit::Millisecond, None), "ts_us" => ts(TimeUnit::Microsecond, None),
+        "ts_ns" => ts(TimeUnit::Nanosecond, None), "ts_ns_utc" => ts(TimeUnit::Nanosecond, Some("UTC")), "ts_us_p2" => ts(TimeUnit::Microsecond, Some("+02:00")),
         _ => panic!("unknown type {name}"),
     }
 }
 
 fn build_array(name: &str, vals: &[String]) -> ArrayRef {
-    macro_rules! ints { ($A:ty, $T:ty) => { Arc::new(<$A>::from(vals.iter().map(|s| s.parse::<$T>().unwrap_or_else(|_| panic!("{s} as {}", name))).collect::<Vec<$T>>())) as ArrayRef } }
+    let opt = |s: &String| if s == "NULL" { None } else { Some(s.clone()) };
+    macro_rules! prim { ($A:ty, $T:ty) => { Arc::new(<$A>::from(vals.iter().map(|s| opt(s).map(|s| s.parse::<$T>().unwrap_or_else(|_| panic!("{s} as {}", name)))).collect::<Vec<Option<$T>>>())) as ArrayRef } }
     let dec = |p: u8, s: i8| -> ArrayRef {
-        Arc::new(Decimal128Array::from(vals.iter().map(|v| dec_scaled(v, s as u32)).collect::<Vec<i128>>()).with_precision_and_scale(p, s).unwrap())
+        Arc::new(Decimal128Array::from(vals.iter().map(|v| opt(v).map(|v| dec_digits(&v, s as u32).parse::<i128>().unwrap())).collect::<Vec<Option<i128>>>()).with_precision_and_scale(p, s).unwrap())
     };
+    let via = |base: &str| arrow::compute::cast(&build_array(base, vals), &arrow_type(name)).unwrap_or_else(|e| panic!("cast {base} -> {name}: {e}"));
     match name {
-        "i8" => ints!(Int8Array, i8), "i16" => ints!(Int16Array, i16), "i32" => ints!(Int32Array, i32), "i64" => ints!(Int64Array, i64),
-        "u8" => ints!(UInt8Array, u8), "u16" => ints!(UInt16Array, u16), "u32" => ints!(UInt32Array, u32), "u64" => ints!(UInt64Array, u64),
-        "f32" => ints!(Float32Array, f32), "f64" => ints!(Float64Array, f64),
+        "i8" => prim!(Int8Array, i8), "i16" => prim!(Int16Array, i16), "i32" => prim!(Int32Array, i32), "i64" => prim!(Int64Array, i64),
+        "u8" => prim!(UInt8Array, u8), "u16" => prim!(UInt16Array, u16), "u32" => prim!(UInt32Array, u32), "u64" => prim!(UInt64Array, u64),
+        "f32" => prim!(Float32Array, f32), "f64" => prim!(Float64Array, f64),
         "d20_0" => dec(20, 0), "d10_2" => dec(10, 2), "d38_10" => dec(38, 10),
-        "utf8" => Arc::new(StringArray::from(vals.to_vec())),
-        "dict_i64" => arrow::compute::cast(&build_array("i64", vals), &arrow_type(name).0).unwrap(),
-        "dict_utf8" => arrow::compute::cast(&build_array("utf8", vals), &arrow_type(name).0).unwrap(),
+        "d256_50_10" => Arc::new(Decimal256Array::from(vals.iter().map(|v| opt(v).map(|v| i256::from_string(&dec_digits(&v, 10)).unwrap())).collect::<Vec<Option<i256>>>()).with_precision_and_scale(50, 10).unwrap()),
+        "utf8" => Arc::new(StringArray::from(vals.iter().map(opt).collect::<Vec<Option<String>>>())),
+        "utf8view" | "largeutf8" | "dict_utf8" => via("utf8"),
+        "dict_i64" => via("i64"),
+        "date32" => via("i32"),
+        "date64" | "ts_s" | "ts_ms" | "ts_us" | "ts_ns" | "ts_ns_utc" | "ts_us_p2" => via("i64"),
         _ => panic!("unknown type {name}"),
     }
 }
 
+/// SQL literal of the type holding exactly this value
 fn literal(t: &Ty, text: &str) -> String {
-    if t.sql_type == "Utf8" { format!("'{text}'") } else { format!("arrow_cast('{text}', '{}')", t.sql_type) }
+    if text == "NULL" { return "NULL".into(); }
+    match &t.dt {
+        DataType::Utf8 => format!("'{text}'"),
+        DataType::Dictionary(_, v) if **v == DataType::Utf8 => format!("'{text}'"),
+        DataType::Dictionary(_, v) => format!("arrow_cast('{text}', '{v}')"),
+        DataType::Date32 => format!("arrow_cast(arrow_cast('{text}', 'Int32'), 'Date32')"),
+        DataType::Date64 | DataType::Timestamp(_, _) => format!("arrow_cast(arrow_cast('{text}', 'Int64'), '{}')", t.dt),
+        dt => format!("arrow_cast('{text}', '{dt}')"),
+    }
 }
 
-struct H { rt: tokio::runtime::Runtime, ctx: SessionContext, queries: u64 }
+struct H { rt: tokio::runtime::Runtime, ctx: SessionContext, ctx_smj: SessionContext, queries: u64 }
 impl H {
-    fn q(&mut self, sql: &str) -> Result<Vec<RecordBatch>, String> {
+    fn run(&mut self, smj: bool, sql: &str) -> Result<Vec<RecordBatch>, String> {
         self.queries += 1;
-        let ctx = self.ctx.clone();
+        let ctx = if smj { self.ctx_smj.clone() } else { self.ctx.clone() };
         let r = std::panic::catch_unwind(std::panic::AssertUnwindSafe(|| self.rt.block_on(async {
             let df = ctx.sql(sql).await.map_err(|e| e.to_string())?;
             df.collect().await.map_err(|e| e.to_string())
         })));
         match r { Ok(x) => x, Err(_) => Err("panic".into()) }
+    }
+    fn q(&mut self, sql: &str) -> Result<Vec<RecordBatch>, String> { self.run(false, sql) }
+    fn register(&self, t: &Ty, split: bool) {
+        let arr = build_array(&t.name, &t.rows.iter().map(|r| r.1.clone()).collect::<Vec<_>>());
+        let schema = Arc::new(Schema::new(vec![Field::new("r", DataType::Int32, false), Field::new("v", t.dt.clone(), true)]));
+        let rcol: ArrayRef = Arc::new(Int32Array::from((0..t.rows.len() as i32).collect::<Vec<_>>()));
+        let b = RecordBatch::try_new(Arc::clone(&schema), vec![rcol, arr]).unwrap();
+        let h = b.num_rows() / 2;
+        // two partitions so that joins/filters see more than one batch
+        let parts = if split && h > 0 { vec![vec![b.slice(0, h)], vec![b.slice(h, b.num_rows() - h)]] } else { vec![vec![b]] };
+        for c in [&self.ctx, &self.ctx_smj] {
+            c.register_table(t.table.as_str(), Arc::new(MemTable::try_new(Arc::clone(&schema), parts.clone()).unwrap())).unwrap();
+        }
     }
 }
 
@@ -91,80 +127,84 @@ fn boolcol(b: &RecordBatch, c: usize) -> Vec<Option<bool>> {
     let a = b.column(c).as_any().downcast_ref::<BooleanArray>().unwrap_or_else(|| panic!("column {c} is {:?}", b.column(c).data_type()));
     (0..a.len()).map(|i| if a.is_null(i) { None } else { Some(a.value(i)) }).collect()
 }
+fn not3(x: Option<bool>) -> Option<bool> { x.map(|b| !b) }
 
 pub fn main() {
     let inp: Value = serde_json::from_str(&std::fs::read_to_string(util::arg("--in").expect("--in")).unwrap()).unwrap();
     let out = util::arg("--out").expect("--out");
     std::panic::set_hook(Box::new(|_| {}));
-    let values: Vec<String> = inp["values"].as_array().unwrap().iter().map(|v| v.as_str().unwrap().to_string()).collect();
     let filter_ops: Vec<String> = inp["filter_ops"].as_array().unwrap().iter().map(|v| v.as_str().unwrap().to_string()).collect();
+    let list_sizes: Vec<usize> = inp["list_sizes"].as_array().unwrap().iter().map(|v| v.as_u64().unwrap() as usize).collect();
     let rt = tokio::runtime::Builder::new_multi_thread().worker_threads(2).enable_all().build().unwrap();
     let ctx = SessionContext::new_with_config(SessionConfig::new().with_target_partitions(3));
+    let ctx_smj = SessionContext::new_with_config(SessionConfig::new().with_target_partitions(2).set_bool("datafusion.optimizer.prefer_hash_join", false));
+    let mut h = H { rt, ctx, ctx_smj, queries: 0 };
     let mut tys: HashMap<String, Ty> = HashMap::new();
     for t in inp["types"].as_array().unwrap() {
         let name = t["name"].as_str().unwrap().to_string();
-        let mut rows: Vec<(i64, String)> = t["idxs"].as_array().unwrap().iter().map(|i| { let i = i.as_i64().unwrap(); (i, values[i as usize - 1].clone()) }).collect();
-        if name == "f32" || name == "f64" {
-            // negative zero is another spelling of the number 0
-            if let Some(z) = rows.iter().find(|r| r.1 == "0").map(|r| r.0) { rows.push((z, "-0".into())); }
-        }
-        let (dt, sql_type) = arrow_type(&name);
-        let arr = build_array(&name, &rows.iter().map(|r| r.1.clone()).collect::<Vec<_>>());
-        let schema = Arc::new(Schema::new(vec![Field::new("r", DataType::Int32, false), Field::new("v", dt, true)]));
-        let rcol: ArrayRef = Arc::new(Int32Array::from((0..rows.len() as i32).collect::<Vec<_>>()));
-        // two partitions so that joins/filters see more than one batch
-        let b = RecordBatch::try_new(Arc::clone(&schema), vec![rcol, arr]).unwrap();
-        let h = b.num_rows() / 2;
-        let parts = vec![vec![b.slice(0, h)], vec![b.slice(h, b.num_rows() - h)]];
-        ctx.register_table(format!("t_{name}").as_str(), Arc::new(MemTable::try_new(schema, parts).unwrap())).unwrap();
-        tys.insert(name.clone(), Ty { table: format!("t_{name}"), name, sql_type, rows });
+        let rows: Vec<(i64, String)> = t["rows"].as_array().unwrap().iter().map(|r| (r[0].as_i64().unwrap(), r[1].as_str().unwrap().to_string())).collect();
+        let ty = Ty { table: format!("t_{name}"), dt: arrow_type(&name), name: name.clone(), rows };
+        h.register(&ty, true);
+        tys.insert(name, ty);
     }
-    let mut h = H { rt, ctx, queries: 0 };
     let mut violations: Vec<Value> = vec![];
     let mut nviol = 0u64;
     let mut errors: Vec<Value> = vec![];
     let mut nerr = 0u64;
     let mut evaluations = 0u64;
     let mut exact_checked = 0u64;
+    let mut context_info = 0u64;       // non-exact pairs: BETWEEN/CASE/DISTINCT answers that differ from the pairwise operators (information)
     let mut distinct: BTreeSet<(String, String, i64, i64)> = BTreeSet::new();
     let mut coercion: Vec<Value> = vec![];
     let mut samples: Vec<Value> = vec![];
     let mut pair_stats: Vec<Value> = vec![];
-    macro_rules! viol { ($v:expr) => {{ nviol += 1; if violations.len() < 40 { violations.push($v); } }}; }
-    macro_rules! err { ($v:expr) => {{ nerr += 1; if errors.len() < 40 { errors.push($v); } }}; }
-
-    let mut work: std::collections::VecDeque<(Ty, Ty, bool, bool)> = inp["pairs"].as_array().unwrap().iter()
-        .map(|p| (tys[p["ta"].as_str().unwrap()].clone(), tys[p["tb"].as_str().unwrap()].clone(), p["exact"].as_bool().unwrap(), false)).collect();
+    let mut paths: BTreeMap<String, u64> = BTreeMap::new();    // which sub-check / strategy ran how often
     let mut restricted_pairs = 0u64;
     let mut tmp_tables = 0u64;
+    let mut vclasses: BTreeMap<String, u64> = BTreeMap::new();      // violations per <kind | typeA | typeB>
+    macro_rules! viol { ($v:expr) => {{
+        let v: Value = $v;
+        let cls = format!("{} | {} | {}", v["kind"].as_str().unwrap_or(""), v["case"]["ta"].as_str().unwrap_or(""), v["case"]["tb"].as_str().unwrap_or(""));
+        let n = vclasses.entry(cls).or_insert(0);
+        *n += 1;
+        nviol += 1;
+        // keep the first few of every class so that no class can crowd out another
+        if *n <= 2 && violations.len() < 400 { violations.push(v); }
+    }}; }
+    macro_rules! err { ($v:expr) => {{ nerr += 1; if errors.len() < 60 { errors.push($v); } }}; }
+    macro_rules! path { ($p:expr) => {{ *paths.entry($p.to_string()).or_insert(0) += 1; }}; }
+
+    let mut work: VecDeque<(Ty, Ty, bool, bool)> = inp["pairs"].as_array().unwrap().iter()
+        .map(|p| (tys[p["ta"].as_str().unwrap()].clone(), tys[p["tb"].as_str().unwrap()].clone(), p["exact"].as_bool().unwrap(), false)).collect();
     while let Some((ta_o, tb_o, exact, restricted)) = work.pop_front() {
         let (ta, tb) = (&ta_o, &tb_o);
         let (na, nb) = (ta.rows.len(), tb.rows.len());
         let case = |ra: usize, rb: usize| json!({"ta": ta.name, "tb": tb.name, "a": ta.rows[ra].1, "b": tb.rows[rb].1});
-        // 1. projection: all operators, both operand orders
+        // 1. projection: all operators, both operand orders, and the comparison in other syntactic contexts
         let mut cols: Vec<String> = vec![];
         for op in OPS { cols.push(format!("a.v {op} b.v")); }
         for op in OPS { cols.push(format!("b.v {} a.v", mirror(op))); }
-        let sql = format!("SELECT a.r, b.r, {} FROM {} a CROSS JOIN {} b", cols.join(", "), ta.table, tb.table);
+        let extra = ["a.v BETWEEN b.v AND b.v", "a.v IN (b.v)", "a.v NOT IN (b.v)", "CASE a.v WHEN b.v THEN true ELSE false END",
+                     "CASE WHEN a.v < b.v THEN true WHEN a.v >= b.v THEN false END", "a.v IS NOT DISTINCT FROM b.v", "a.v IS DISTINCT FROM b.v",
+                     "b.v IN (a.v)", "a.v NOT BETWEEN b.v AND b.v"];
+        for e in extra { cols.push(e.to_string()); }
+        let ncols = cols.len();
+        let alias = |cols: &Vec<String>| cols.iter().enumerate().map(|(i, c)| format!("{c} AS c{i}")).collect::<Vec<_>>().join(", ");
+        let sql = format!("SELECT a.r, b.r, {} FROM {} a CROSS JOIN {} b", alias(&cols), ta.table, tb.table);
         let batches = match h.q(&sql) {
             Ok(b) => b,
             Err(e) => {
                 err!(json!({"ta": ta.name, "tb": tb.name, "where": if restricted { "projection (restricted)" } else { "projection" }, "error": e.chars().take(200).collect::<String>()}));
                 if !restricted {
-                    // an error is allowed by the property; the laws are still checked on the values both types represent
-                    let common: BTreeSet<i64> = ta.rows.iter().map(|r| r.0).filter(|i| tb.rows.iter().any(|r| r.0 == *i)).collect();
-                    if !common.is_empty() {
+                    // an error is allowed by the property; the laws are still checked on the values both types represent (and NULL)
+                    let common: BTreeSet<i64> = ta.rows.iter().map(|r| r.0).filter(|i| *i >= 0 && tb.rows.iter().any(|r| r.0 == *i)).collect();
+                    if common.len() > 1 {
                         let mut mk = |t: &Ty| -> Ty {
                             let rows: Vec<(i64, String)> = t.rows.iter().filter(|r| common.contains(&r.0)).cloned().collect();
                             tmp_tables += 1;
-                            let table = format!("r{}_{}", tmp_tables, t.name);
-                            let (dt, _) = arrow_type(&t.name);
-                            let arr = build_array(&t.name, &rows.iter().map(|r| r.1.clone()).collect::<Vec<_>>());
-                            let schema = Arc::new(Schema::new(vec![Field::new("r", DataType::Int32, false), Field::new("v", dt, true)]));
-                            let rcol: ArrayRef = Arc::new(Int32Array::from((0..rows.len() as i32).collect::<Vec<_>>()));
-                            let b = RecordBatch::try_new(Arc::clone(&schema), vec![rcol, arr]).unwrap();
-                            h.ctx.register_table(table.as_str(), Arc::new(MemTable::try_new(schema, vec![vec![b]]).unwrap())).unwrap();
-                            Ty { name: t.name.clone(), table, sql_type: t.sql_type.clone(), rows }
+                            let n = Ty { name: t.name.clone(), table: format!("r{}_{}", tmp_tables, t.name), dt: t.dt.clone(), rows };
+                            h.register(&n, false);
+                            n
                         };
                         let (ra, rb) = (mk(ta), mk(tb));
                         restricted_pairs += 1;
@@ -174,12 +214,13 @@ pub fn main() {
                 continue;
             }
         };
-        // m[op][ra][rb]
-        let mut m: Vec<Vec<Vec<Option<bool>>>> = vec![vec![vec![None; nb]; na]; 12];
+        path!("projection");
+        // m[col][ra][rb]
+        let mut m: Vec<Vec<Vec<Option<bool>>>> = vec![vec![vec![None; nb]; na]; ncols];
         let mut filled = 0usize;
         for b in &batches {
             let (ra, rb) = (i32col(b, 0), i32col(b, 1));
-            for c in 0..12 {
+            for c in 0..ncols {
                 let v = boolcol(b, 2 + c);
                 for i in 0..b.num_rows() { m[c][ra[i] as usize][rb[i] as usize] = v[i]; }
             }
@@ -189,6 +230,8 @@ pub fn main() {
         let mut pair_viol = 0u64;
         for ra in 0..na { for rb in 0..nb {
             let (ia, ib) = (ta.rows[ra].0, tb.rows[rb].0);
+            if ia == 0 || ib == 0 { path!("NULL operand"); }
+            if ia < 0 || ib < 0 { path!("float special operand (NaN / inf)"); }
             for (k, op) in OPS.iter().enumerate() {
                 evaluations += 1;
                 let (x, y) = (m[k][ra][rb], m[6 + k][ra][rb]);
@@ -200,55 +243,85 @@ pub fn main() {
                 if exact {
                     exact_checked += 1;
                     let want = cmp_idx(op, ia, ib);
-                    if x != Some(want) {
+                    if x != want {
                         pair_viol += 1;
                         viol!(json!({"case": case(ra, rb), "kind": "exact", "expr": format!("a {op} b"), "observed": x, "expected": want,
-                                     "oracle": "NumLine!Cmp: integer/decimal comparison = comparison of the numbers"}));
+                                     "oracle": "NumLine!Cmp3: integer/decimal comparison = comparison of the numbers (NULL if an operand is NULL)"}));
                     }
                 }
             }
-            if ia != ib || true { distinct.insert((ta.name.clone(), tb.name.clone(), ia, ib)); }
+            // the comparison in other syntactic contexts, stated in terms of the pairwise operators
+            let (eq, ne, lt, ge) = (m[0][ra][rb], m[1][ra][rb], m[2][ra][rb], m[5][ra][rb]);
+            let both_null = ia == 0 && ib == 0;
+            let any_null = ia == 0 || ib == 0;
+            let ndf = if both_null { Some(true) } else if any_null { Some(false) } else { eq };
+            let wants: [(usize, Option<bool>, bool); 9] = [
+                (12, eq, false), (13, eq, true), (14, ne, true), (15, Some(eq == Some(true)), false),
+                (16, if lt == Some(true) { Some(true) } else if ge == Some(true) { Some(false) } else { None }, false),
+                (17, ndf, false), (18, not3(ndf), false), (19, eq, true), (20, ne, false)];
+            for (c, want, is_in_list) in wants {
+                evaluations += 1;
+                let got = m[c][ra][rb];
+                if got != want {
+                    if is_in_list || exact {
+                        pair_viol += 1;
+                        viol!(json!({"case": case(ra, rb), "kind": if is_in_list { "IN list with a column entry" } else { "comparison context" }, "expr": extra[c - 12], "observed": got,
+                                     "pairwise": {"=": eq, "<>": ne, "<": lt, ">=": ge}, "expected": want,
+                                     "oracle": "IN lists agree with the pairwise comparison; for integers/decimals every comparison context gives the mathematically correct answer"}));
+                    } else {
+                        context_info += 1;
+                    }
+                }
+            }
+            distinct.insert((ta.name.clone(), tb.name.clone(), ia, ib));
         } }
-        if samples.len() < 3 && exact && ta.name != tb.name && na > 3 && nb > 3 {
-            samples.push(json!({"case": case(na - 1, nb - 2), "a_lt_b": m[2][na - 1][nb - 2], "a_eq_b": m[0][na - 1][nb - 2]}));
+        path!("IN list with a non-literal entry");
+        path!("BETWEEN / CASE / IS DISTINCT FROM contexts");
+        if samples.len() < 3 && exact && ta.name != tb.name && na > 4 && nb > 4 {
+            samples.push(json!({"case": case(na - 2, nb - 3), "a_lt_b": m[2][na - 2][nb - 3], "a_eq_b": m[0][na - 2][nb - 3]}));
         }
         let truth = |k: usize| -> BTreeSet<(i32, i32)> { let mut s = BTreeSet::new(); for ra in 0..na { for rb in 0..nb { if m[k][ra][rb] == Some(true) { s.insert((ra as i32, rb as i32)); } } } s };
         let pairs_of = |bs: &Vec<RecordBatch>| -> Vec<(i32, i32)> { let mut v = vec![]; for b in bs { let (x, y) = (i32col(b, 0), i32col(b, 1)); for i in 0..b.num_rows() { v.push((x[i], y[i])); } } v };
-        let cmp_pairs = |h: &mut H, sql: String, want: &BTreeSet<(i32, i32)>, kind: &str, violations: &mut Vec<Value>, nviol: &mut u64, errors: &mut Vec<Value>, nerr: &mut u64| {
-            match h.q(&sql) {
+        let cmp_pairs = |h: &mut H, smj: bool, sql: String, want: &BTreeSet<(i32, i32)>, kind: &str, violations: &mut Vec<Value>, nviol: &mut u64, errors: &mut Vec<Value>, nerr: &mut u64| -> bool {
+            match h.run(smj, &sql) {
                 Ok(bs) => {
                     let got = pairs_of(&bs);
                     let gs: BTreeSet<(i32, i32)> = got.iter().copied().collect();
                     if gs != *want || got.len() != gs.len() {
                         let d = gs.symmetric_difference(want).next().copied();
                         *nviol += 1;
-                        if violations.len() < 40 {
+                        if violations.len() < 400 {
                             violations.push(json!({"case": d.map(|(x, y)| json!({"ta": ta.name, "tb": tb.name, "a": ta.rows[x as usize].1, "b": tb.rows[y as usize].1})).unwrap_or(json!({"ta": ta.name, "tb": tb.name})),
                                 "kind": kind, "sql": sql, "observed_rows": got.len(), "expected_rows": want.len(), "in_result": d.map(|d| gs.contains(&d)),
                                 "oracle": "filter / join result = the pairs for which the projected comparison is true (NumLine!JoinLaw)"}));
                         }
                     }
+                    true
                 }
-                Err(e) => { *nerr += 1; if errors.len() < 40 { errors.push(json!({"ta": ta.name, "tb": tb.name, "where": kind, "error": e.chars().take(200).collect::<String>()})); } }
+                Err(e) => { *nerr += 1; if errors.len() < 60 { errors.push(json!({"ta": ta.name, "tb": tb.name, "where": kind, "error": e.chars().take(200).collect::<String>()})); } false }
             }
         };
         // 2. filter (nested loop / cross join + filter)
         for op in &filter_ops {
             let k = OPS.iter().position(|o| o == op).unwrap();
-            cmp_pairs(&mut h, format!("SELECT a.r, b.r FROM {} a, {} b WHERE a.v {op} b.v", ta.table, tb.table), &truth(k), "filter", &mut violations, &mut nviol, &mut errors, &mut nerr);
+            if cmp_pairs(&mut h, false, format!("SELECT a.r, b.r FROM {} a, {} b WHERE a.v {op} b.v", ta.table, tb.table), &truth(k), "filter", &mut violations, &mut nviol, &mut errors, &mut nerr) { path!("filter"); }
         }
-        // 3. equi-join, both key orders
+        // 3. equi-join: hash and sort-merge, both key orders, residual filter, null-equal keys
         let eq = truth(0);
-        cmp_pairs(&mut h, format!("SELECT a.r, b.r FROM {} a JOIN {} b ON a.v = b.v", ta.table, tb.table), &eq, "equi-join", &mut violations, &mut nviol, &mut errors, &mut nerr);
-        cmp_pairs(&mut h, format!("SELECT a.r, b.r FROM {} a JOIN {} b ON b.v = a.v", ta.table, tb.table), &eq, "equi-join (mirrored key order)", &mut violations, &mut nviol, &mut errors, &mut nerr);
+        if cmp_pairs(&mut h, false, format!("SELECT a.r, b.r FROM {} a JOIN {} b ON a.v = b.v", ta.table, tb.table), &eq, "equi-join", &mut violations, &mut nviol, &mut errors, &mut nerr) { path!("equi-join (hash)"); }
+        if cmp_pairs(&mut h, false, format!("SELECT a.r, b.r FROM {} a JOIN {} b ON b.v = a.v", ta.table, tb.table), &eq, "equi-join (mirrored key order)", &mut violations, &mut nviol, &mut errors, &mut nerr) { path!("equi-join (mirrored key order)"); }
+        if cmp_pairs(&mut h, true, format!("SELECT a.r, b.r FROM {} a JOIN {} b ON a.v = b.v", ta.table, tb.table), &eq, "equi-join (sort-merge)", &mut violations, &mut nviol, &mut errors, &mut nerr) { path!("equi-join (sort-merge)"); }
+        let eq_res: BTreeSet<(i32, i32)> = eq.iter().copied().filter(|p| p.0 % 2 == 0).collect();
+        if cmp_pairs(&mut h, false, format!("SELECT a.r, b.r FROM {} a JOIN {} b ON a.v = b.v AND a.r % 2 = 0", ta.table, tb.table), &eq_res, "equi-join with a residual filter", &mut violations, &mut nviol, &mut errors, &mut nerr) { path!("equi-join with a residual filter"); }
+        if cmp_pairs(&mut h, false, format!("SELECT a.r, b.r FROM {} a JOIN {} b ON a.v IS NOT DISTINCT FROM b.v", ta.table, tb.table), &truth(17), "null-equal join (IS NOT DISTINCT FROM key)", &mut violations, &mut nviol, &mut errors, &mut nerr) { path!("null-equal join"); }
         // 4. literals of type B against column of type A (cast unwrapping), both orders
         for op in &filter_ops {
             let k = OPS.iter().position(|o| o == op).unwrap();
             let mut cols = vec![];
             for (_, text) in &tb.rows { let l = literal(tb, text); cols.push(format!("a.v {op} {l}")); cols.push(format!("{l} {} a.v", mirror(op))); }
-            let sql = format!("SELECT a.r, {} FROM {} a", cols.join(", "), ta.table);
+            let sql = format!("SELECT a.r, {} FROM {} a", alias(&cols), ta.table);
             match h.q(&sql) {
-                Ok(bs) => for b in &bs {
+                Ok(bs) => { path!("column vs literal"); for b in &bs {
                     let ra = i32col(b, 0);
                     for rb in 0..nb { for side in 0..2 {
                         let v = boolcol(b, 1 + 2 * rb + side);
@@ -261,17 +334,79 @@ pub fn main() {
                             }
                         }
                     } }
-                },
+                } },
                 Err(e) => err!(json!({"ta": ta.name, "tb": tb.name, "where": "literal", "error": e.chars().take(200).collect::<String>()})),
             }
+            // the same in a filter (the cast-unwrapping rewrite of predicates)
+            let rb = (k * 7 + na) % nb;
+            let l = literal(tb, &tb.rows[rb].1);
+            let want: BTreeSet<i32> = (0..na).filter(|ra| m[k][*ra][rb] == Some(true)).map(|x| x as i32).collect();
+            match h.q(&format!("SELECT a.r FROM {} a WHERE a.v {op} {l}", ta.table)) {
+                Ok(bs) => {
+                    path!("column vs literal in a filter");
+                    let mut got: Vec<i32> = vec![]; for b in &bs { got.extend(i32col(b, 0)); }
+                    let gs: BTreeSet<i32> = got.iter().copied().collect();
+                    if gs != want || gs.len() != got.len() {
+                        let d = gs.symmetric_difference(&want).next().copied();
+                        viol!(json!({"case": d.map(|d| case(d as usize, rb)).unwrap_or(json!({"ta": ta.name, "tb": tb.name})), "kind": "filter: column op literal", "op": op,
+                                     "in_result": d.map(|d| gs.contains(&d)), "oracle": "a filter against a literal keeps the rows for which the pairwise comparison is true"}));
+                    }
+                }
+                Err(e) => err!(json!({"ta": ta.name, "tb": tb.name, "where": "literal filter", "error": e.chars().take(200).collect::<String>()})),
+            }
         }
-        // 5. IN list of literals and IN subquery
+        // 5. IN / NOT IN lists of literals of several sizes, with and without a NULL entry (three-valued), in a projection
+        let nonnull: Vec<usize> = (0..nb).filter(|rb| tb.rows[*rb].0 != 0).collect();
+        if !nonnull.is_empty() {
+            let mut lists: Vec<(Vec<usize>, bool)> = vec![];     // (rows of B, with a NULL literal)
+            for (li, &sz) in list_sizes.iter().enumerate() {
+                let sz = if sz == 0 { nonnull.len() } else { sz };
+                let off = (li * 5 + na) % nonnull.len();
+                let rows: Vec<usize> = (0..sz).map(|j| nonnull[(off + j * 3) % nonnull.len()]).collect();
+                lists.push((rows.clone(), false));
+                if li % 2 == 0 { lists.push((rows, true)); }
+            }
+            let mut cols = vec![];
+            for (rows, with_null) in &lists {
+                let mut ls: Vec<String> = rows.iter().map(|rb| literal(tb, &tb.rows[*rb].1)).collect();
+                if *with_null { ls.insert(ls.len() / 2, "NULL".into()); }
+                cols.push(format!("a.v IN ({})", ls.join(", ")));
+                cols.push(format!("a.v NOT IN ({})", ls.join(", ")));
+            }
+            let sql = format!("SELECT a.r, {} FROM {} a", alias(&cols), ta.table);
+            match h.q(&sql) {
+                Ok(bs) => for b in &bs {
+                    let ra = i32col(b, 0);
+                    for (li, (rows, with_null)) in lists.iter().enumerate() {
+                        path!(format!("IN list of {} literals{}", match rows.len() { 0..=3 => "1-3", 4 => "4", 5..=8 => "5-8", 9..=16 => "9-16", 17..=32 => "17-32", _ => "33+" }, if *with_null { " + NULL" } else { "" }));
+                        let (vin, vnot) = (boolcol(b, 1 + 2 * li), boolcol(b, 2 + 2 * li));
+                        for i in 0..b.num_rows() {
+                            evaluations += 2;
+                            let a = ra[i] as usize;
+                            let mut any_true = false; let mut any_null = *with_null;
+                            for rb in rows { match m[0][a][*rb] { Some(true) => any_true = true, None => any_null = true, _ => {} } }
+                            let want = if any_true { Some(true) } else if any_null { None } else { Some(false) };
+                            for (got, want, neg) in [(vin[i], want, false), (vnot[i], not3(want), true)] {
+                                if got != want {
+                                    viol!(json!({"case": {"ta": ta.name, "tb": tb.name, "a": ta.rows[a].1, "list": rows.iter().map(|rb| tb.rows[*rb].1.clone()).collect::<Vec<_>>(), "list_has_null": with_null},
+                                                 "kind": if neg { "NOT IN list" } else { "IN list" }, "observed": got, "expected": want,
+                                                 "oracle": "x IN (list) = OR of the pairwise x = y (three-valued; NumLine!InLaw)"}));
+                                }
+                            }
+                        }
+                    }
+                },
+                Err(e) => err!(json!({"ta": ta.name, "tb": tb.name, "where": "IN list", "error": e.chars().take(200).collect::<String>()})),
+            }
+        }
+        // IN list in a filter and IN subquery
         let want_in: BTreeSet<i32> = eq.iter().map(|p| p.0).collect();
         let lits: Vec<String> = tb.rows.iter().map(|(_, t)| literal(tb, t)).collect();
-        for (kind, sql) in [("IN list", format!("SELECT a.r FROM {} a WHERE a.v IN ({})", ta.table, lits.join(", "))),
+        for (kind, sql) in [("IN list (filter)", format!("SELECT a.r FROM {} a WHERE a.v IN ({})", ta.table, lits.join(", "))),
                             ("IN subquery", format!("SELECT a.r FROM {} a WHERE a.v IN (SELECT v FROM {})", ta.table, tb.table))] {
             match h.q(&sql) {
                 Ok(bs) => {
+                    path!(kind);
                     let mut got: Vec<i32> = vec![]; for b in &bs { got.extend(i32col(b, 0)); }
                     let gs: BTreeSet<i32> = got.iter().copied().collect();
                     evaluations += na as u64;
@@ -289,7 +424,7 @@ pub fn main() {
             if let Some(b) = bs.first() {
                 if let Some(a) = b.column(1).as_any().downcast_ref::<StringArray>() {
                     let plan = a.value(0).lines().next().unwrap_or("").to_string();
-                    if coercion.len() < 400 { coercion.push(json!({"ta": ta.name, "tb": tb.name, "projection": plan.chars().take(160).collect::<String>()})); }
+                    if coercion.len() < 900 { coercion.push(json!({"ta": ta.name, "tb": tb.name, "projection": plan.chars().take(160).collect::<String>()})); }
                 }
             }
         }
@@ -297,7 +432,9 @@ pub fn main() {
     }
     let res = json!({
         "evaluations": evaluations, "exact_comparisons_checked": exact_checked, "distinct_nontrivial": distinct.len(), "queries": h.queries,
-        "violations": violations, "n_violations": nviol, "errors": errors, "n_errors": nerr, "samples": samples, "pairs": pair_stats.len(), "pairs_retried_on_common_values": restricted_pairs, "coercion": coercion,
+        "violations": violations, "n_violations": nviol, "errors": errors, "n_errors": nerr, "samples": samples, "pairs": pair_stats.len(),
+        "pairs_retried_on_common_values": restricted_pairs, "coercion": coercion, "paths": paths, "violation_classes": vclasses,
+        "non_exact_context_answers_differing_from_pairwise_operators": context_info,
     });
     std::fs::write(&out, serde_json::to_string(&res).unwrap()).unwrap();
     util::summary(json!({"evaluations": evaluations, "n_violations": nviol, "n_errors": nerr, "queries": h.queries}));
